@@ -72,6 +72,14 @@ def run():
         lines += ['{"e":"Reset"}'] + t
         group += [i] * (len(t) + 1)
     res = vlib.validate_sharded('TraceApi', 'TraceApi.cfg', lines, 'c13', shards=16, timeout=1500, group=group, independent=False)
+    # conformance with the model's internal decisions/state (skip & rebind decisions, pointers, version copies, reset word):
+    # a mismatch is model drift, reported but not a violation of the property
+    res2 = vlib.validate_sharded('TraceApi', 'TraceApiModel.cfg', lines, 'c13m', shards=16, timeout=1500, group=group, independent=False)
+    ck.cov['parts']['TraceApiModel'] = {'trace_events_accepted': res2['accepted'], 'trace_events_total': res2['total'], 'model_drift': [x['line'][:240] for x in res2['rejected']][:5]}
+    ck.cov['states'] += res2['states']
+    ck.cov['transitions'] += res2['transitions']
+    if res2['rejected'] and not res['rejected']:
+        vlib.log('[c13] MODEL-DRIFT: %s' % res2['rejected'][0]['line'][:300])
     ck.add_traces('TraceApi', res, 'hash calls entered with every rounding/FTZ/DAZ combination, several mask and flag patterns, all VM configurations')
     for rj in res['rejected']:
         try:
